@@ -50,7 +50,7 @@ func runC01(w *World, r *Report) {
 		return
 	}
 	r.Rule("stamp", "header encoded only after Header.Length := Len() on every path", 8)
-	r.Rule("encreject", "no encoder of an OpenFlow kind constructs an error of its own: every message the constructors and builders can build is encoded (a refusal by value hits exactly the limit cases)", 100)
+	r.Rule("encreject", "no encoder of an OpenFlow kind constructs an error of its own: every message the constructors and builders can build is encoded (a refusal by value hits exactly the limit cases)", 60)
 	encRejectRule(w, r, "encreject", func(k *Kind) bool { return strings.HasPrefix(k.Name, "openflow13.") || strings.HasPrefix(k.Name, "common.") })
 	r.Rule("size", "sizeM ≡ sizeL (and extentM) as symbolic terms", 100)
 	r.Rule("type", "constructor leaves the kind's ofp_type in Header.Type", 15)
